@@ -198,3 +198,24 @@ Definition jslex_ok (x : Z * bytes * Z * Z * Z * Z) : bool :=
     | r => st =? status_of r
     end.
 Definition check_jslex := mismatches jslex_ok.
+
+From V Require Import C16.JsIdent.
+(* js_lexer.RangeOfIdentifier at offset 0: (text, status, Len) *)
+Definition jsroi_ok (x : bytes * Z * Z) : bool :=
+  let '(t, st, l) := x in
+  match jsRangeOfIdentifier ids_sample idc_sample2 t with
+  | Ok l' => (st =? 0) && (l =? l')
+  | r => st =? status_of r
+  end.
+Definition check_jsroi := mismatches jsroi_ok.
+
+From V Require Import C16.JsPragma.
+(* js_lexer.scanForPragmaArg: (skipSpaceFirst, start, len(pragma), text, status, ok, span text, span start, span len) *)
+Definition pragma_ok (x : bool * Z * Z * bytes * Z * bool * bytes * Z * Z) : bool :=
+  let '(sk, start, plen, t, st, ok, stext, sstart, slen) := x in
+  match scanForPragmaArg js_ws sk start plen t with
+  | Ok (Some (s, s0, n)) => (st =? 0) && ok && zlist_eqb s stext && (s0 =? sstart) && (n =? slen)
+  | Ok None => (st =? 0) && negb ok
+  | r => st =? status_of r
+  end.
+Definition check_pragma := mismatches pragma_ok.
